@@ -13,6 +13,8 @@ FUNCS = {"step": ["operation.step.StepOperationExecutor.check_result_status", "o
 
 
 def run(chk):
+    from .common import per_instance_state_of_modules
+    per_instance_state_of_modules(chk, "C01.classes.state_is_per_instance", ['context', 'identifier', 'threading'])   # no object created in a class body: instances share no mutable state through the class
     for kind in ("step", "child", "wait", "invoke", "wfc"):
         ex = explore(kind)
         handler_preamble(chk, ex, FUNCS[kind])
